@@ -55,6 +55,7 @@ class Ref:
         self.direct = [0] * n   # direct conflicts
         self.conf = [0] * n     # conflicts
         self.actor = [None] * n
+        self.imm = [0] * n      # immediate causes as given to the event (may be redundant)
         self.used = 0           # events that exist (canonical ones)
 
     def add_event(self, i, causes, depmask, actor):
@@ -62,6 +63,7 @@ class Ref:
         for c in causes:
             lt |= self.le[c]
         self.lt[i] = lt
+        self.imm[i] = mask_of(causes)
         self.le[i] = lt | (1 << i)
         self.actor[i] = actor
         self.dep[i] = depmask
@@ -158,6 +160,10 @@ class Ref:
                 r |= 1 << j
         return r
 
+    def redundant_in(self, S):
+        """does some event of the closure of S have an immediate cause that is also a cause of another of its immediate causes?"""
+        return any(self.maximal(self.imm[i]) != self.imm[i] for i in members(self.closure(S)))
+
     def latest_of(self, S, actor):
         cand = [i for i in members(S) if self.actor[i] == actor]
         tops = [i for i in cand if not any((self.lt[j] >> i) & 1 for j in cand)]
@@ -176,10 +182,10 @@ def unf_cases(draw, max_events=15, tier="quick"):
     for i, t in enumerate(ts):
         cand = draw(st.lists(small, min_size=0, max_size=3)) if i else []
         # flags: bit0 = keep redundant causes as given, bit1 = chain on the previous event (deep structures), 7 = duplicate an earlier event
-        flag = draw(st.sampled_from([0, 0, 2, 2, 2, 1, 3, 7]))
+        flag = draw(st.sampled_from([0, 2, 2, 0, 2, 2, 7, 0, 2, 2, 1, 3]))
         events.append([t, cand, flag])
     sets = draw(st.lists(st.lists(small, min_size=0, max_size=6), min_size=1, max_size=4))
-    ks = draw(st.lists(st.sampled_from([None, None, 0, 1, 2, 3, 5]), min_size=len(sets), max_size=len(sets)))
+    ks = draw(st.lists(st.sampled_from([None, None, 1, 1, 2, 3, 5]), min_size=len(sets), max_size=len(sets)))
     iters = [draw(st.integers(0, 7)), draw(st.integers(0, 8)), draw(st.integers(0, 6)),
              draw(st.lists(st.integers(0, 3), min_size=0, max_size=4))]
     return {"syn": tabs, "events": events, "sets": sets, "ks": ks, "iters": iters}
